@@ -291,6 +291,28 @@ def generate() -> Tuple[str, Dict[str, Any], List[str]]:
         refuses = False
         fallbacks.append('newline probe: %s: %s' % (type(e).__name__, e))
 
+    # behavioural fact probed on the live code: does export_private_key('openssh') refuse a comment that contains
+    # a NUL (OpenSSH reads the comment as a C string and cannot load such a file)?
+    def refuses_nul() -> bool:
+        import asyncssh
+        k = asyncssh.generate_private_key('ssh-ed25519')
+        outcomes = []
+        for c in (b'a\0b', b'\0', b'tail\0'):
+            k.set_comment(c)
+            try:
+                k.export_private_key('openssh')
+                outcomes.append(False)
+            except pk.KeyExportError:
+                outcomes.append(True)
+        k.set_comment(b'plain')
+        k.export_private_key('openssh')
+        return all(outcomes)
+    try:
+        refuses_nul_comment = refuses_nul()
+    except Exception as e:
+        refuses_nul_comment = False
+        fallbacks.append('NUL comment probe: %s: %s' % (type(e).__name__, e))
+
     magic = bytes(pk._OPENSSH_KEY_V1)
     pub_algs = sorted(bytes(a) for a in pk._public_key_alg_map)
     cert_algs = sorted(bytes(a) for a in pk._certificate_alg_map)
@@ -358,6 +380,10 @@ def padCheckStop (n : Int) : Int := {chk_stop}
     raise `KeyExportError` for a comment containing a newline -/
 def exportRefusesNewlineComment : Bool := {'true' if refuses else 'false'}
 
+/-- probed on the live code: `export_private_key('openssh')` raises `KeyExportError` for a comment containing
+    a NUL byte -/
+def exportRefusesNulComment : Bool := {'true' if refuses_nul_comment else 'false'}
+
 end AsyncsshModel.Gen.C15
 '''
     info = {'tables': {'public_key_algs': len(pub_algs), 'certificate_algs': len(cert_algs),
@@ -366,6 +392,7 @@ end AsyncsshModel.Gen.C15
                             'openssh_pad_export': [pad_first, pad_stop, none_bs],
                             'openssh_pad_check': [chk_max, chk_first, chk_stop]},
             'export_refuses_newline_comment': refuses,
+            'export_refuses_nul_comment': refuses_nul_comment,
             'fallbacks': fallbacks}
     return src, info, fallbacks
 
